@@ -246,8 +246,13 @@ def code_param_set(draw, cls, positional):
     k = draw(st.integers(1, dim))
     if positional:
         return Ls[:k]
-    keys = ['L_x', 'L_y', 'L_z'][:k]
-    return dict(zip(keys, Ls[:k]))
+    # any subset of the optional keys, in any key order (L_x is required)
+    names = ['L_x', 'L_y', 'L_z'][:dim]
+    keep = ['L_x'] + [nm for nm in names[1:] if draw(st.booleans())]
+    if cls == 'RotatedToric3DCode' and 'L_y' not in keep:
+        keep.append('L_y')          # keep L_x, L_y even (see above)
+    keep = draw(st.permutations(keep))
+    return {nm: Ls[names.index(nm)] for nm in keep}
 
 
 @st.composite
